@@ -189,6 +189,56 @@ for T, x in ((Bit, Bit(1)), (Unsigned[4], Unsigned[4](5)), (Signed[3], Signed[3]
     accepted += 1
     if type(std.base_type(cb)) is type and not (std.base_type(cb) is BitVector[std.count_bits(T)] and str(cb) == str(s.bits())):
         bad.append(["serialized-copy", f"std.Serialized[{T.__name__}] copy holds {cb!r}, the original {s.bits()!r}"])
+# a Serialized[A] / a BitField A only ever holds the serialised form of an A: objects of ANOTHER type with the same number of bits
+# are rejected (their layout is a different one), objects of the same type accepted
+from cohdl import Null
+from cohdl._core._intrinsic_operations import AssignMode
+
+
+class RecA(std.Record):
+    x: BitVector[2]
+    y: Unsigned[4]
+
+
+class RecB(std.Record):
+    p: Unsigned[4]
+    q: BitVector[2]
+
+
+BitField = std.bitfield.BitField
+
+
+class Status(BitField[8]):
+    busy: BitField.Field[0]
+    code: BitField.Field[7:4]
+
+
+class Control(BitField[8]):
+    mode: BitField.Field[2:0]
+    level: BitField.Field[7:3]
+
+
+def attempt(fn):
+    try:
+        fn()
+        return True
+    except Exception:
+        return False
+
+
+for name, same, other in (
+    ("serialized-assign", lambda: std.Serialized[RecA](Null, _qualifier_=Signal)._assign_(std.Serialized[RecA](Null, _qualifier_=Signal), AssignMode.NEXT),
+     lambda: std.Serialized[RecA](Null, _qualifier_=Signal)._assign_(std.Serialized[RecB](Null, _qualifier_=Signal), AssignMode.NEXT)),
+    ("serialized-copy-other-type", lambda: std.Serialized[RecA](std.Serialized[RecA](Null)), lambda: std.Serialized[RecA](std.Serialized[RecB](Null))),
+    ("bitfield-from-bitfield", lambda: std.Value[Control](Control(BitVector[8]("10100101"))), lambda: std.Value[Control](Status(BitVector[8]("10100101")))),
+):
+    n += 2
+    if not attempt(same):
+        bad.append([name, f"{name}: an object of the SAME type is rejected"])
+    else:
+        accepted += 1
+    if attempt(other):
+        bad.append([name, f"{name}: an object of another type with the same number of bits is accepted; its bits are read with the layout of the target type"])
 first = {}
 for b in bad:
     first.setdefault(b[0], b)
